@@ -1,7 +1,7 @@
 SPECIFICATION Spec
 CONSTANTS
   Ks = {0, 1, 2}
-  ScriptIds = {2, 3, 7}
+  ScriptIds = {2, 3, 7, 9}
   Want = 2
   Cancels = {TRUE}
   Lates = {FALSE}
